@@ -1,104 +1,227 @@
 import Blue.Proofs.ManiCrash
-import Blue.Model.Mani
+import Blue.Model.ManiDir
 /-! The manifest's states and edits (`Blue.Mani`) form a lawful algebra for `ManiCrash`: rolling a
     reachable state up into one edit and applying it to the empty state gives the state back. -/
 namespace Blue.Mani
 open Blue.ManiCrash
 
-def addIfAbsent (acc : List (List Nat)) (x : List Nat) : List (List Nat) :=
-  if acc.contains x then acc else acc ++ [x]
+/-! `ltBytes` is a strict total order -/
+theorem ltBytes_irrefl : ∀ a, ltBytes a a = false
+  | [] => rfl
+  | a :: s => by simp [ltBytes, ltBytes_irrefl s]
 
-def Wf (s : State) : Prop := s.strs.Nodup ∧ (s.info.map (·.1)).Nodup
+theorem ltBytes_asymm : ∀ a b, ltBytes a b = true → ltBytes b a = false
+  | [], [], h => by simp [ltBytes] at h
+  | [], _ :: _, _ => rfl
+  | _ :: _, [], h => by simp [ltBytes] at h
+  | a :: s, b :: t, h => by
+    simp only [ltBytes] at h ⊢
+    by_cases h1 : a < b
+    · have h2 : ¬ b < a := by omega
+      simp [h1, h2]
+    · by_cases h2 : b < a
+      · simp [h1, h2] at h
+      · simp only [h1, h2, if_false] at h ⊢
+        exact ltBytes_asymm s t h
 
-theorem foldl_add_nodup : ∀ (xs acc : List (List Nat)), acc.Nodup →
-    (xs.foldl (fun acc x => if acc.contains x then acc else acc ++ [x]) acc).Nodup
+theorem ltBytes_trans : ∀ a b c, ltBytes a b = true → ltBytes b c = true → ltBytes a c = true
+  | [], [], _, h, _ => by simp [ltBytes] at h
+  | [], _ :: _, [], _, h => by simp [ltBytes] at h
+  | [], _ :: _, _ :: _, _, _ => rfl
+  | _ :: _, [], _, h, _ => by simp [ltBytes] at h
+  | _ :: _, _ :: _, [], _, h => by simp [ltBytes] at h
+  | a :: s, b :: t, c :: u, h1, h2 => by
+    simp only [ltBytes] at h1 h2 ⊢
+    by_cases ab : a < b
+    · by_cases bc : b < c
+      · have ac : a < c := by omega
+        simp [ac]
+      · by_cases cb : c < b
+        · simp [bc, cb] at h2
+        · have ac : a < c := by omega
+          simp [ac]
+    · by_cases ba : b < a
+      · simp [ab, ba] at h1
+      · simp only [ab, ba, if_false] at h1
+        have hab : a = b := by omega
+        subst hab
+        by_cases bc : a < c
+        · simp [bc]
+        · by_cases cb : c < a
+          · simp [bc, cb] at h2
+          · simp only [bc, cb, if_false] at h2 ⊢
+            exact ltBytes_trans s t u h1 h2
+
+theorem ltBytes_tri : ∀ a b, ltBytes a b = true ∨ a = b ∨ ltBytes b a = true
+  | [], [] => Or.inr (Or.inl rfl)
+  | [], _ :: _ => Or.inl rfl
+  | _ :: _, [] => Or.inr (Or.inr rfl)
+  | a :: s, b :: t => by
+    simp only [ltBytes]
+    by_cases ab : a < b
+    · left; simp [ab]
+    · by_cases ba : b < a
+      · right; right; simp [ba]
+      · have hab : a = b := by omega
+        subst hab
+        simp only [ab, if_false]
+        rcases ltBytes_tri s t with h | h | h
+        · left; exact h
+        · right; left; rw [h]
+        · right; right; exact h
+
+/-- the list stands for a `BTreeSet<String>`: strictly increasing -/
+def SortedS (l : List (List Nat)) : Prop := l.Pairwise (fun a b => ltBytes a b = true)
+/-- the list stands for a `BTreeMap<char, String>`: keys strictly increasing -/
+def SortedI (l : List (Nat × List Nat)) : Prop := l.Pairwise (fun a b => a.1 < b.1)
+
+def Wf (s : State) : Prop := SortedS s.strs ∧ SortedI s.info
+
+theorem mem_insertStr {x z : List Nat} : ∀ {l : List (List Nat)}, z ∈ insertStr x l → z = x ∨ z ∈ l
+  | [], h => by simp [insertStr] at h; exact Or.inl h
+  | y :: t, h => by
+    simp only [insertStr] at h
+    split at h
+    · exact Or.inr h
+    · split at h
+      · rcases List.mem_cons.mp h with h | h
+        · exact Or.inl h
+        · exact Or.inr h
+      · rcases List.mem_cons.mp h with h | h
+        · exact Or.inr (h ▸ List.mem_cons_self ..)
+        · rcases mem_insertStr h with h | h
+          · exact Or.inl h
+          · exact Or.inr (List.mem_cons_of_mem _ h)
+
+theorem insertStr_sorted (x : List Nat) : ∀ l, SortedS l → SortedS (insertStr x l)
+  | [], _ => by simp [insertStr, SortedS]
+  | y :: t, h => by
+    have hy : ∀ z ∈ t, ltBytes y z = true := (List.pairwise_cons.mp h).1
+    have ht : SortedS t := (List.pairwise_cons.mp h).2
+    simp only [insertStr]
+    split
+    · exact h
+    · rename_i hne
+      split
+      · rename_i hlt
+        refine List.pairwise_cons.mpr ⟨fun z hz => ?_, h⟩
+        rcases List.mem_cons.mp hz with rfl | hz
+        · exact hlt
+        · exact ltBytes_trans _ _ _ hlt (hy z hz)
+      · rename_i hnlt
+        have hyx : ltBytes y x = true := by
+          rcases ltBytes_tri x y with h1 | h1 | h1
+          · exact absurd h1 hnlt
+          · exact absurd h1 hne
+          · exact h1
+        refine List.pairwise_cons.mpr ⟨fun z hz => ?_, insertStr_sorted x t ht⟩
+        rcases mem_insertStr hz with rfl | hz
+        · exact hyx
+        · exact hy z hz
+
+theorem insertStr_last (x : List Nat) : ∀ acc : List (List Nat), (∀ y ∈ acc, ltBytes y x = true) →
+    insertStr x acc = acc ++ [x]
+  | [], _ => rfl
+  | y :: t, h => by
+    have hyx := h y (List.mem_cons_self ..)
+    have hne : x ≠ y := by
+      intro e; subst e; rw [ltBytes_irrefl] at hyx; cases hyx
+    have hn : ¬ ltBytes x y = true := by rw [ltBytes_asymm _ _ hyx]; simp
+    simp only [insertStr, if_neg hne, if_neg hn, List.cons_append]
+    rw [insertStr_last x t (fun z hz => h z (List.mem_cons_of_mem _ hz))]
+
+theorem foldl_insert_sorted : ∀ (xs acc : List (List Nat)), SortedS acc →
+    SortedS (xs.foldl (fun acc x => insertStr x acc) acc)
   | [], _, h => h
   | x :: xs, acc, h => by
     simp only [List.foldl_cons]
-    apply foldl_add_nodup xs
-    split
-    · exact h
-    · rename_i hc
-      rw [List.nodup_append]
-      refine ⟨h, by simp, ?_⟩
-      intro a ha b hb hab
-      simp only [List.mem_singleton] at hb
-      subst hb; subst hab
-      exact hc (List.contains_iff_mem.mpr ha)
+    exact foldl_insert_sorted xs _ (insertStr_sorted x acc h)
 
-theorem foldl_add_fresh : ∀ (xs acc : List (List Nat)), (acc ++ xs).Nodup →
-    xs.foldl (fun acc x => if acc.contains x then acc else acc ++ [x]) acc = acc ++ xs
+theorem foldl_insert_fresh : ∀ (xs acc : List (List Nat)), SortedS (acc ++ xs) →
+    xs.foldl (fun acc x => insertStr x acc) acc = acc ++ xs
   | [], acc, _ => by simp
   | x :: xs, acc, h => by
     simp only [List.foldl_cons]
-    have hx : ¬ acc.contains x = true := by
-      intro hc
-      rw [List.nodup_append] at h
-      exact h.2.2 x (List.contains_iff_mem.mp hc) x List.mem_cons_self rfl
-    rw [if_neg hx, foldl_add_fresh xs (acc ++ [x]) (by simpa using h)]
+    have hx : ∀ y ∈ acc, ltBytes y x = true := by
+      intro y hy
+      exact (List.pairwise_append.mp h).2.2 y hy x (List.mem_cons_self ..)
+    rw [insertStr_last x acc hx, foldl_insert_fresh xs (acc ++ [x]) (by simpa [SortedS] using h)]
     simp
 
-theorem setInfo_keys (k : Nat) (v : List Nat) : ∀ (l : List (Nat × List Nat)),
-    (setInfo k v l).map (·.1) = if k ∈ l.map (·.1) then l.map (·.1) else l.map (·.1) ++ [k]
-  | [] => by simp [setInfo]
-  | (k', v') :: t => by
+theorem mem_setInfo {k : Nat} {v : List Nat} {z : Nat × List Nat} :
+    ∀ {l : List (Nat × List Nat)}, z ∈ setInfo k v l → z = (k, v) ∨ z ∈ l
+  | [], h => by simp [setInfo] at h; exact Or.inl h
+  | (k', v') :: t, h => by
+    simp only [setInfo] at h
+    split at h
+    · rcases List.mem_cons.mp h with h | h
+      · exact Or.inl h
+      · exact Or.inr (List.mem_cons_of_mem _ h)
+    · split at h
+      · rcases List.mem_cons.mp h with h | h
+        · exact Or.inl h
+        · exact Or.inr h
+      · rcases List.mem_cons.mp h with h | h
+        · exact Or.inr (h ▸ List.mem_cons_self ..)
+        · rcases mem_setInfo h with h | h
+          · exact Or.inl h
+          · exact Or.inr (List.mem_cons_of_mem _ h)
+
+theorem setInfo_sorted (k : Nat) (v : List Nat) : ∀ l, SortedI l → SortedI (setInfo k v l)
+  | [], _ => by simp [setInfo, SortedI]
+  | (k', v') :: t, h => by
+    have hy : ∀ z ∈ t, k' < z.1 := (List.pairwise_cons.mp h).1
+    have ht : SortedI t := (List.pairwise_cons.mp h).2
     simp only [setInfo]
-    by_cases h : k' = k
-    · subst h; simp
-    · rw [if_neg h]
-      simp only [List.map_cons, setInfo_keys k v t, List.mem_cons]
-      have : ¬ k = k' := fun e => h e.symm
-      by_cases hm : k ∈ t.map (·.1)
-      · simp [hm]
-      · simp [hm, this]
+    split
+    · rename_i he
+      subst he
+      exact List.pairwise_cons.mpr ⟨hy, ht⟩
+    · rename_i hne
+      split
+      · rename_i hlt
+        refine List.pairwise_cons.mpr ⟨fun z hz => ?_, h⟩
+        rcases List.mem_cons.mp hz with rfl | hz
+        · exact hlt
+        · exact Nat.lt_trans hlt (hy z hz)
+      · rename_i hnlt
+        refine List.pairwise_cons.mpr ⟨fun z hz => ?_, setInfo_sorted k v t ht⟩
+        rcases mem_setInfo hz with rfl | hz
+        · show k' < k
+          omega
+        · exact hy z hz
 
-theorem setInfo_nodup (k : Nat) (v : List Nat) (l : List (Nat × List Nat)) (h : (l.map (·.1)).Nodup) :
-    ((setInfo k v l).map (·.1)).Nodup := by
-  rw [setInfo_keys]
-  split
-  · exact h
-  · rename_i hk
-    rw [List.nodup_append]
-    refine ⟨h, by simp, ?_⟩
-    intro a ha b hb hab
-    simp only [List.mem_singleton] at hb
-    subst hb; subst hab
-    exact hk ha
-
-theorem setInfo_fresh (k : Nat) (v : List Nat) : ∀ (l : List (Nat × List Nat)), k ∉ l.map (·.1) →
-    setInfo k v l = l ++ [(k, v)]
+theorem setInfo_last (k : Nat) (v : List Nat) : ∀ acc : List (Nat × List Nat), (∀ y ∈ acc, y.1 < k) →
+    setInfo k v acc = acc ++ [(k, v)]
   | [], _ => rfl
   | (k', v') :: t, h => by
-    simp only [List.map_cons, List.mem_cons, not_or] at h
-    simp only [setInfo]
-    rw [if_neg (fun e => h.1 e.symm), setInfo_fresh k v t h.2]
-    rfl
+    have hyx : k' < k := h (k', v') (List.mem_cons_self ..)
+    have hne : ¬ k = k' := by omega
+    have hn : ¬ k < k' := by omega
+    simp only [setInfo, if_neg hne, if_neg hn, List.cons_append]
+    rw [setInfo_last k v t (fun z hz => h z (List.mem_cons_of_mem _ hz))]
 
-theorem foldl_info_nodup : ∀ (kvs acc : List (Nat × List Nat)), (acc.map (·.1)).Nodup →
-    ((kvs.foldl (fun acc kv => setInfo kv.1 kv.2 acc) acc).map (·.1)).Nodup
+theorem foldl_info_sorted : ∀ (kvs acc : List (Nat × List Nat)), SortedI acc →
+    SortedI (kvs.foldl (fun acc kv => setInfo kv.1 kv.2 acc) acc)
   | [], _, h => h
   | kv :: kvs, acc, h => by
     simp only [List.foldl_cons]
-    exact foldl_info_nodup kvs _ (setInfo_nodup _ _ _ h)
+    exact foldl_info_sorted kvs _ (setInfo_sorted _ _ _ h)
 
-theorem foldl_info_fresh : ∀ (kvs acc : List (Nat × List Nat)), ((acc ++ kvs).map (·.1)).Nodup →
+theorem foldl_info_fresh : ∀ (kvs acc : List (Nat × List Nat)), SortedI (acc ++ kvs) →
     kvs.foldl (fun acc kv => setInfo kv.1 kv.2 acc) acc = acc ++ kvs
   | [], acc, _ => by simp
   | kv :: kvs, acc, h => by
     simp only [List.foldl_cons]
-    have hk : kv.1 ∉ acc.map (·.1) := by
-      intro hc
-      rw [List.map_append, List.nodup_append] at h
-      exact h.2.2 kv.1 hc kv.1 (by simp) rfl
-    rw [setInfo_fresh _ _ _ hk, foldl_info_fresh kvs (acc ++ [(kv.1, kv.2)]) (by simpa using h)]
+    have hk : ∀ y ∈ acc, y.1 < kv.1 := by
+      intro y hy
+      exact (List.pairwise_append.mp h).2.2 y hy kv (List.mem_cons_self ..)
+    rw [setInfo_last _ _ _ hk, foldl_info_fresh kvs (acc ++ [(kv.1, kv.2)]) (by simpa [SortedI] using h)]
     simp
 
 theorem applyEdit_wf (s : State) (e : Edit) (h : Wf s) : Wf (applyEdit s e) := by
   unfold applyEdit Wf
-  exact ⟨foldl_add_nodup _ _ (h.1.filter _), foldl_info_nodup _ _ h.2⟩
-
-def maniAlgebra : Algebra State Edit :=
-  ⟨⟨[], []⟩, applyEdit, fun st => ⟨[], st.strs, st.info⟩⟩
+  exact ⟨foldl_insert_sorted _ _ (List.Pairwise.filter _ h.1), foldl_info_sorted _ _ h.2⟩
 
 theorem replay_wf : ∀ (es : List Edit) (s : State), Wf s → Wf (es.foldl applyEdit s)
   | [], _, h => h
@@ -108,13 +231,13 @@ theorem rollup_apply_wf (st : State) (h : Wf st) :
     applyEdit ⟨[], []⟩ ⟨[], st.strs, st.info⟩ = st := by
   unfold applyEdit
   simp only [List.filter_nil]
-  rw [foldl_add_fresh _ _ (by simpa using h.1), foldl_info_fresh _ _ (by simpa using h.2)]
+  rw [foldl_insert_fresh _ _ (by simpa using h.1), foldl_info_fresh _ _ (by simpa using h.2)]
   simp
 
 /-- `Manifest::to_edit` / `apply_edit` satisfy the law the crash theorem needs -/
 theorem maniAlgebra_lawful : Lawful maniAlgebra := by
   intro es
-  exact rollup_apply_wf _ (replay_wf es ⟨[], []⟩ ⟨List.nodup_nil, List.nodup_nil⟩)
+  exact rollup_apply_wf _ (replay_wf es ⟨[], []⟩ ⟨List.Pairwise.nil, List.Pairwise.nil⟩)
 
 /-- **C13**, crash part, for the manifest's own states and edits -/
 theorem mani_crash_recover (h : List (Client Edit)) (fs : Fs Edit) (sofar : List Edit)
@@ -127,30 +250,29 @@ theorem mani_crash_recover (h : List (Client Edit)) (fs : Fs Edit) (sofar : List
       (sofar.length + appended ((opsOf maniAlgebra h sofar).take n)) :=
   crash_recover maniAlgebra maniAlgebra_lawful h fs sofar hinv n
 
-/-- `Manifest::verify`'s chaining check: every fragment after the first starts with the roll-up of
-    the state the previous fragment replays to -/
-def chainOk : List (List Edit) → Bool
-  | a :: b :: rest => decide (b.head? = some (maniAlgebra.rollup (replay maniAlgebra a))) && chainOk (b :: rest)
-  | _ => true
-
-def fragments (fs : Fs Edit) : List (List Edit) := fs.backups ++ [fs.mani.durable ++ fs.mani.pending]
-
 def e1 : Edit := ⟨[], [[97]], []⟩
 def e2 : Edit := ⟨[], [[98]], []⟩
-def start : Fs Edit := ⟨⟨[e1], []⟩, none, []⟩
+def start : Fs Edit := { mani := ⟨[e1], []⟩, tmp := none, backups := [] }
 
 /-- without a crash the fragments chain -/
 example : chainOk (fragments (run start (opsOf maniAlgebra [.edit e2, .rollover] [e1]))) = true := by decide
 
-/-- **D-25 at model level**: the process dies in `rollover` after the hard link and before the
-    rename; the next `open` rolls over again, linking the *unchanged* MANIFEST to a second backup —
-    a fragment that does not start with the complete state at its creation.  The state is intact,
-    the chain check fails. -/
+/-- **D-13 at model level**, `Manifest::open` as it was: the process dies in `rollover` after the
+    hard link and before the rename; the next `open` rolls over again, linking the *unchanged*
+    MANIFEST to a second backup — a fragment that does not start with the complete state at its
+    creation.  The state is intact, the chain check fails. -/
 theorem crash_in_rollover_breaks_chain :
-    let crashed := run start ((opsOf maniAlgebra [.edit e2, .rollover] [e1]).take 4)
-    let reopened := run crashed (block maniAlgebra [e1, e2] .rollover)
+    let crashed := crashB (run start ((opsOf maniAlgebra [.edit e2, .rollover] [e1]).take 4))
+    let reopened := run crashed (reopenOpsAsIs maniAlgebra crashed)
     recoverB maniAlgebra reopened = replay maniAlgebra [e1, e2]
     ∧ chainOk (fragments reopened) = false := by decide
+
+/-- … and as repaired: the interrupted rollover is finished (no second link), the fragments chain -/
+theorem crash_in_rollover_resumed :
+    let crashed := crashB (run start ((opsOf maniAlgebra [.edit e2, .rollover] [e1]).take 4))
+    let reopened := run crashed (reopenOps maniAlgebra crashed)
+    recoverB maniAlgebra reopened = replay maniAlgebra [e1, e2]
+    ∧ chainOk (fragments reopened) = true ∧ reopened.backups.length = 1 := by decide
 
 end Blue.Mani
 
